@@ -1973,7 +1973,17 @@ func (db *DatabaseCollectionWithUser) ResyncDocument(ctx context.Context, docid 
 	var updatedDoc *Document
 	var updatedExpiry *uint32
 	var unusedSequences []uint64
+	// sequence assigned to the document by the latest attempt of the callback, when regenerating sequences
+	var assignedSequence uint64
+	releaseAssignedSequence := func() {
+		if assignedSequence != 0 {
+			db.releaseSequences(ctx, []uint64{assignedSequence})
+			assignedSequence = 0
+		}
+	}
 	writeUpdateFunc := func(currentValue []byte, currentXattrs map[string][]byte, cas uint64) (sgbucket.UpdatedDoc, error) {
+		// A previous attempt lost the CAS race: the sequence it assigned is not going to be written.
+		releaseAssignedSequence()
 		// resyncDocument is not called on tombstoned documents, so this value will only be empty if the document was
 		// deleted between DCP event and calling this function. In any case, we do not need to update it.
 		if len(currentValue) == 0 {
@@ -1986,6 +1996,9 @@ func (db *DatabaseCollectionWithUser) ResyncDocument(ctx context.Context, docid 
 		updatedDoc, unusedSequences, err = db.getResyncedDocument(ctx, doc, regenerateSequences)
 		if err != nil {
 			return sgbucket.UpdatedDoc{}, err
+		}
+		if regenerateSequences {
+			assignedSequence = updatedDoc.Sequence
 		}
 		base.TracefCtx(ctx, base.KeyAccess, "Saving updated channels and access grants of %q on resync", base.UD(docid))
 
@@ -2005,12 +2018,16 @@ func (db *DatabaseCollectionWithUser) ResyncDocument(ctx context.Context, docid 
 		}
 		return updatedDoc, err
 	}
-	db.releaseSequences(ctx, unusedSequences)
 
 	// these values are updated by the callback function
 	mutateInOpts := sgbucket.MutateInOptions{}
 	var expiry uint32
 	_, err := db.dataStore.WriteUpdateWithXattrs(ctx, docid, db.syncGlobalSyncMouRevSeqNoAndUserXattrKeys(), expiry, previousDoc, &mutateInOpts, writeUpdateFunc)
+	db.releaseSequences(ctx, unusedSequences)
+	if err != nil {
+		// the document was not rewritten
+		releaseAssignedSequence()
+	}
 	if err == nil {
 		base.Audit(ctx, base.AuditIDDocumentResync, base.AuditFields{
 			base.AuditFieldDocID:      docid,
